@@ -558,6 +558,272 @@ def run_c14(tier, seed, t0, replay_item=None):
     return finish(rep, t0)
 
 
+# ----------------------------------------------------------------------------- C10 faults
+
+def locks_cfg(prog, clients, faults, dev="{}", liveness=True):
+    return """CONSTANTS
+  Clients = %s
+  Prog <- %s
+  MaxFaults = %d
+  Dev = %s
+SPECIFICATION Spec
+INVARIANTS TypeOK AtRestFree NoDoubleRelease
+%s
+""" % (clients, prog, faults, dev, "PROPERTIES EveryCallReturns" if liveness else "")
+
+
+def mc_locks(tier, which):
+    """Model-checks Locks.tla. Returns summed stats; also runs the sensitivity self-test: with
+    deviation D1 (the repaired leak) the same program must violate AtRestFree."""
+    runs = {"C10": [("P1", '{"c1"}', 1)], "C11": [("P2", '{"c1", "c2"}', 0), ("P2", '{"c1", "c2"}', 1)]}[which]
+    if tier == "thorough":
+        runs = runs + [("P3", '{"c1", "c2", "c3"}', 1)] + ([("P1", '{"c1"}', 2)] if which == "C10" else [])
+    tot = {"distinct": 0, "generated": 0, "wall_s": 0}
+    for prog, clients, faults in runs:
+        name = "L_%s_%d.cfg" % (prog, faults)
+        st = core.model_check("MC_Locks.tla", name, timeout=2400, files={name: locks_cfg(prog, clients, faults)})
+        for k in tot:
+            tot[k] += st[k]
+    out, st = core.tlc("MC_Locks.tla", "L_D1.cfg", timeout=600, files={"L_D1.cfg": locks_cfg("P1", '{"c1"}', 1, '{"D1"}', False)})
+    if st["violation"] != "AtRestFree":
+        raise Infra("Locks.tla with deviation D1 (leak on error paths) should violate AtRestFree but TLC says %s" % st["violation"])
+    out, st = core.tlc("MC_Locks.tla", "L_D9.cfg", timeout=600, files={"L_D9.cfg": locks_cfg("PD9", '{"c1"}', 0, '{"D9"}', False)})
+    if st["violation"] != "Deadlock":
+        raise Infra("Locks.tla on the partially-consumed-reader program should deadlock (K03) but TLC says %s" % st["violation"])
+    return tot
+
+
+STD_HISTORY = [
+    {"op": "Mkdir", "p": ["a"], "q": [], "c": "", "k": 0},
+    {"op": "WriteFile", "p": ["a", "b"], "q": [], "c": "c2", "k": 0},
+    {"op": "WriteFile", "p": ["c"], "q": [], "c": "c1", "k": 0},
+    {"op": "Mkdir", "p": ["a", "c"], "q": [], "c": "", "k": 0},
+    {"op": "WriteFile", "p": ["a", "c", "b"], "q": [], "c": "c3", "k": 0},
+    {"op": "Mkdir", "p": ["b"], "q": [], "c": "", "k": 0},
+]
+STD_CALLS = [
+    ("Mkdir", ["b", "a"], [], "", 0), ("MkdirAll", ["b", "c", "a"], [], "", 0), ("Create", ["b", "b"], [], "", 0),
+    ("WriteFile", ["b", "c"], [], "c3", 0), ("WriteFile", ["c"], [], "c2", 0), ("Append", ["c"], [], "c2", 0),
+    ("Create", ["c"], [], "", 0), ("Remove", ["c"], [], "", 0), ("Remove", ["b"], [], "", 0), ("RemoveAll", ["a"], [], "", 0),
+    ("RemoveAll", ["nope"], [], "", 0), ("Remove", ["nope"], [], "", 0), ("Rename", ["c"], ["b", "c"], "", 0),
+    ("Rename", ["a"], ["b", "a"], "", 0), ("Rename", ["c"], ["a", "b"], "", 0), ("Rename", ["nope"], ["x"], "", 0),
+    ("Rename", ["a"], ["a", "c", "a"], "", 0), ("Chmod", ["a", "b"], [], "", 1), ("Chown", ["a"], [], "", 2),
+    ("Chtimes", ["c"], [], "", 1), ("Stat", ["a", "b"], [], "", 0), ("List", ["a"], [], "", 0), ("ReadFile", ["a", "c", "b"], [], "", 0),
+    ("ReadFile", ["a", "b"], [], "", 0), ("Mkdir", ["nope", "x"], [], "", 0), ("WriteFile", ["a"], [], "c1", 0),
+]
+
+
+def run_c10(tier, seed, t0, replay_item=None):
+    prop = "C10"
+    rep = Report(prop, tier, seed, "fault_enumeration")
+    runner = core.build_runner()
+    core.ensure_keys(runner)
+    mc = {"distinct": 0, "generated": 0}
+    if replay_item is not None:
+        items = [replay_item]
+    else:
+        mc = mc_locks(tier, "C10")
+        log("[C10] TLC on Locks.tla: %d distinct states; AtRestFree, NoDoubleRelease, EveryCallReturns hold with one fault anywhere; D1 and K03 deviations are detected by the model" % mc["distinct"])
+        rng = random.Random(seed)
+        items = []
+        calls = list(STD_CALLS)
+        if tier == "quick":
+            rng.shuffle(calls)
+            calls = calls[:14]
+        for i, (op, p, q, c, k) in enumerate(calls):
+            cfg = conc.config(rng, plain_bias=0.7, allow_pgp=False)
+            cc = {"names": conc.names(rng, ["a", "b", "c", "nope", "x"], rng.choice(["plain", "like", "spaces"]))[0],
+                  "chunks": conc.chunks(rng, ["c1", "c2", "c3"], cfg["rs"], small=True)}
+            items.append({"id": "C10-std-%d-%d" % (seed, i), "cfg": cfg, "conc": cc, "history": STD_HISTORY,
+                          "call": {"op": op, "p": p, "q": q, "c": c, "k": k}, "allk": tier == "thorough"})
+        # calls inside TLC-generated histories
+        behs, _ = generate_core(seed, [("wide", 10 if tier == "quick" else 150)])
+        for i, (g, steps) in enumerate(behs):
+            j = rng.randrange(2, len(steps))
+            cfg, cc, pool = conc.concretise(rng, steps, plain_bias=0.7, allow_pgp=False, small=True)
+            items.append({"id": "C10-gen-%d-%d" % (seed, i), "cfg": cfg, "conc": cc, "history": [s["call"] for s in steps[:j]],
+                          "call": steps[j]["call"], "allk": tier == "thorough"})
+        items.append({"id": "C10-witness-K03", "cfg": {"rs": 20}, "conc": {}, "history": [], "call": {"op": "Mkdir", "p": ["x"], "q": [], "c": "", "k": 0},
+                      "witness": "partialread"})
+    res, crashed = core.run_batches(runner, "fault", items, per_batch=2, timeout=3000)
+    by_id = {it["id"]: it for it in items}
+    inj, fired, infra, samples = 0, {}, [], []
+    for bid, why in crashed.items():
+        rep.violation("the process died while injecting faults into %s (%s): %s" % (bid, by_id[bid]["call"], why[-2000:]),
+                      {"kind": "fault", "prop": prop, "item": by_id[bid]})
+    for bid, r in res.items():
+        if r.get("infra"):
+            infra.append("%s: %s" % (bid, r["infra"]))
+            continue
+        inj += r.get("injections", 0)
+        for k, v in (r.get("fired") or {}).items():
+            fired[k] = fired.get(k, 0) + v
+        samples += (r.get("sample") or [])[:1]
+        unknown = []
+        for f in r.get("findings", []):
+            k = match_known(prop, f, by_id[bid])
+            if k:
+                rep.known[k["id"]] = "%s (%s)" % (k["what"], k["id"])
+            else:
+                unknown.append(f)
+        if unknown:
+            f = unknown[0]
+            rep.violation("%s %s: %s" % (bid, f.get("call", ""), f["msg"]) + ("\n" + r["dump"][:2500] if r.get("dump") else ""),
+                          {"kind": "fault", "prop": prop, "item": by_id[bid], "findings": unknown[:10]})
+    if infra and len(infra) > len(items) // 2 and not rep.violations:
+        raise Infra("; ".join(infra[:4]))
+    for m in infra[:5]:
+        log("[C10] skipped: " + m)
+    rep.coverage = {"evaluations": inj, "distinct_nontrivial": len(fired),
+                    "rule": "for each call (26 fixed call kinds over a standard tree incl. rejected calls, plus calls inside TLC-generated histories) a fault-free run counts the points reached per class (open drive for writing/reading, k-th drive write, k-th drive read, k-th index-store call, k-th source read); then every (quick: a spread of) k is failed once on a fresh instance; the call and the following Mkdir/Stat/List/ReadFile probes must return under a watchdog and the process must survive; distinct = (call kind, fault class) pairs whose fault fired",
+                    "samples": samples[:10] or ["none"], "fired": fired, "skipped": len(infra), "tlc_states": mc["distinct"]}
+    rep.assumptions = ["faults are injected at the seams the code already has (BackendConfig functions, MetadataPersister interface, write-cache factory); a failing drive write performs a short write first",
+                       "a call counts as hung after 40 s, a probe after 25 s"]
+    return finish(rep, t0)
+
+
+# ----------------------------------------------------------------------------- C11 concurrency
+
+def conc_programs(rng, nclients, ncalls):
+    shared = ["s"]
+    names = ["x", "y", "z"]
+    setup = [{"op": "Mkdir", "p": ["s"], "q": [], "c": "", "k": 0},
+             {"op": "WriteFile", "p": ["s", "fix"], "q": [], "c": "c1", "k": 0},
+             {"op": "Mkdir", "p": ["s", "x"], "q": [], "c": "", "k": 0}]
+    for i in range(nclients):
+        setup.append({"op": "Mkdir", "p": ["d%d" % i], "q": [], "c": "", "k": 0})
+    clients = []
+    for i in range(nclients):
+        prog, mine = [], []
+        for _ in range(ncalls):
+            x = rng.randrange(100)
+            nm = rng.choice(names)
+            if x < 22:
+                f = ["d%d" % i, rng.choice(["f", "g"])]
+                prog.append({"op": "WriteFile", "p": f, "q": [], "c": rng.choice(["c1", "c2", "c3"]), "k": 0})
+                mine.append(f)
+            elif x < 30 and mine:
+                prog.append({"op": "Append", "p": rng.choice(mine), "q": [], "c": rng.choice(["c1", "c2"]), "k": 0})
+            elif x < 38 and mine:
+                prog.append({"op": "ReadFile", "p": rng.choice(mine), "q": [], "c": "", "k": 0})
+            elif x < 50:
+                prog.append({"op": "Mkdir", "p": ["s", nm], "q": [], "c": "", "k": 0})
+            elif x < 57:
+                prog.append({"op": "MkdirAll", "p": ["s", nm, rng.choice(names)], "q": [], "c": "", "k": 0})
+            elif x < 65:
+                prog.append({"op": rng.choice(["Remove", "RemoveAll"]), "p": ["s", nm], "q": [], "c": "", "k": 0})
+            elif x < 77:
+                prog.append({"op": "Rename", "p": ["s", nm], "q": ["s", rng.choice(names)], "c": "", "k": 0})
+            elif x < 87:
+                prog.append({"op": rng.choice(["Chmod", "Chown", "Chtimes"]), "p": rng.choice([["s"], ["s", nm], ["s", "fix"]]), "q": [], "c": "", "k": rng.randrange(1, 4)})
+            elif x < 94:
+                prog.append({"op": "Stat", "p": rng.choice([["s", nm], ["s", "fix"], ["d%d" % ((i + 1) % nclients)]]), "q": [], "c": "", "k": 0})
+            else:
+                prog.append({"op": "List", "p": rng.choice([["s"], []]), "q": [], "c": "", "k": 0})
+        clients.append(prog)
+    return setup, clients
+
+
+def lin_check(it, r):
+    """Runs TLC on spec/Lin.tla for one recorded history. Returns (linearizable, stats)."""
+    hist = {"setup": [{"op": c["op"], "p": c.get("p") or [], "q": c.get("q") or [], "c": c.get("c") or "", "k": c.get("k") or 0} for c in it["setup"]],
+            "calls": [{"id": i + 1, "call": {"op": h["call"]["op"], "p": h["call"].get("p") or [], "q": h["call"].get("q") or [],
+                                             "c": h["call"].get("c") or "", "k": h["call"].get("k") or 0},
+                       "inv": h["inv"], "ret": h["ret"], "ok": h["ok"]} for i, h in enumerate(r["history"])],
+            "final": r["final"]}
+    txt = open(os.path.join(core.SPEC, "Lin.cfg")).read().replace("RS = 20", "RS = %d" % it["cfg"]["rs"])
+    out, st = core.tlc("Lin.tla", "Lin_x.cfg", workers=2, timeout=900, heap="4g",
+                       files={"history.json": json.dumps(hist), "Lin_x.cfg": txt})
+    if st["error"]:
+        raise Infra("TLC failed on Lin.tla for %s: %s\n%s" % (it["id"], st["error"], out[-2500:]))
+    return st["violation"] == "NotAccepted", st
+
+
+def run_c11(tier, seed, t0, replay_item=None):
+    prop = "C11"
+    rep = Report(prop, tier, seed, "model_checking")
+    runner = core.build_runner(race=True)
+    core.ensure_keys(runner)
+    mc = {"distinct": 0, "generated": 0}
+    if replay_item is not None:
+        items = [replay_item]
+    else:
+        mc = mc_locks(tier, "C11")
+        log("[C11] TLC on Locks.tla (2 clients, 0 and 1 faults%s): %d distinct states, no deadlock, every call returns" % (", 3 clients" if tier == "thorough" else "", mc["distinct"]))
+        rng = random.Random(seed)
+        n = 28 if tier == "quick" else 500
+        items = []
+        for i in range(n):
+            ncl = rng.choice([2, 2, 3, 4] if tier == "quick" else [2, 3, 4, 6, 8])
+            ncalls = rng.choice([3, 4, 5]) if ncl <= 4 else 3
+            setup, clients = conc_programs(rng, ncl, ncalls)
+            cfg = conc.config(rng, plain_bias=0.75, allow_pgp=False)
+            comps = ["s", "x", "y", "z", "fix", "f", "g"] + ["d%d" % k for k in range(ncl)]
+            names, pool = conc.names(rng, comps, rng.choice(["plain", "plain", "like", "spaces"]))
+            names = {c: (names[c] if c in ("x", "y", "z") else c) for c in comps}
+            chunks = {"c1": {"size": 7, "dist": "text", "seed": 1}, "c2": {"size": 600, "dist": "random", "seed": 2}, "c3": {"size": 2900, "dist": "random", "seed": 3}}
+            items.append({"id": "C11-%d-%d" % (seed, i), "cfg": cfg, "conc": {"names": names, "chunks": chunks}, "setup": setup,
+                          "clients": clients, "seed": rng.randrange(1 << 30)})
+        items.append({"id": "C11-witness-K04", "cfg": {"rs": 20}, "conc": {}, "setup": [], "clients": [], "seed": 1, "witness": "readers"})
+    os.environ["GORACE"] = "halt_on_error=1 exitcode=66"
+    res, crashed = core.run_batches(runner, "conc", items, per_batch=3, timeout=2400, parallel=6)
+    by_id = {it["id"]: it for it in items}
+    runs, calls, overlaps, infra, lin_states, samples, shapes = 0, 0, 0, [], 0, [], set()
+    for bid, why in crashed.items():
+        what = "a data race was reported" if "DATA RACE" in why else "the process died"
+        rep.violation("%s while %d goroutines used one filesystem (%s): %s" % (what, len(by_id[bid]["clients"]), bid, why[-2500:]),
+                      {"kind": "conc", "prop": prop, "item": by_id[bid]})
+    todo = []
+    for bid, r in res.items():
+        it = by_id[bid]
+        if r.get("infra"):
+            infra.append("%s: %s" % (bid, r["infra"]))
+            continue
+        unknown = []
+        for f in r.get("findings", []):
+            k = match_known(prop, f, it)
+            if k:
+                rep.known[k["id"]] = "%s (%s)" % (k["what"], k["id"])
+            else:
+                unknown.append(f)
+        if unknown:
+            rep.violation("%s: %s" % (bid, unknown[0]["msg"]) + ("\n" + r["dump"][:2500] if r.get("dump") else ""),
+                          {"kind": "conc", "prop": prop, "item": it, "findings": unknown[:10]})
+            continue
+        if it.get("witness"):
+            continue
+        runs += 1
+        calls += len(r["history"])
+        overlaps += r.get("overlaps", 0)
+        shapes.add(json.dumps(sorted([(h["client"], h["call"]["op"]) for h in r["history"]])))
+        todo.append((it, r))
+    from concurrent.futures import ThreadPoolExecutor
+    def one(pair):
+        return pair, lin_check(pair[0], pair[1])
+    with ThreadPoolExecutor(max_workers=6) as ex:
+        for (it, r), (ok, st) in ex.map(one, todo):
+            lin_states += st["distinct"] or st["generated"]
+            if len(samples) < 3:
+                samples.append({"clients": len(it["clients"]), "history": [(h["client"], h["call"]["op"], "/".join(h["call"]["p"]), h["inv"], h["ret"], h["cls"]) for h in r["history"]][:14], "linearizable": ok})
+            if not ok:
+                rep.violation("%s: no sequential order of the %d recorded calls that respects their real-time order explains every outcome and the final tree (TLC explored %d states of spec/Lin.tla); history: %s" % (
+                    it["id"], len(r["history"]), st["distinct"], [(h["client"], h["call"]["op"], "/".join(h["call"]["p"]), "/".join(h["call"]["q"]), h["inv"], h["ret"], h["cls"]) for h in r["history"]]),
+                    {"kind": "conc", "prop": prop, "item": it, "history": r["history"], "final": r["final"]})
+    if infra and len(infra) > len(items) // 2 and not rep.violations:
+        raise Infra("; ".join(infra[:4]))
+    for m in infra[:5]:
+        log("[C11] skipped: " + m)
+    rep.coverage = {"states": max(1, mc["distinct"] + lin_states), "transitions": max(1, mc["generated"] + calls),
+                    "traces_validated_against_impl": runs, "samples": samples or ["none"],
+                    "evaluations": calls, "distinct_nontrivial": len(shapes), "overlapping_call_pairs": overlaps,
+                    "rule": "2..8 goroutines run seeded programs (private-directory writes/appends/reads, shared-directory mkdir/mkdirall/remove/removeall/rename/chmod/chown/chtimes/stat/list) on one instance built with -race, with yields and sleeps injected at the drive, index-store and write-cache seams; every history is checked for linearizability by TLC (spec/Lin.tla reuses the actions of STFS.tla) and the final state is rebuilt from the tape; distinct = distinct multisets of (client, call kind)",
+                    "skipped": len(infra), "race_detector": True}
+    rep.assumptions = ["composite operations (open+write+close, open+read+close) are only issued on paths no other goroutine touches; every call on shared paths is a single filesystem method",
+                       "-race is the observation instrument for data races on the executions that were run",
+                       "files are smaller than one Read buffer; concurrent multi-buffer readers are the known finding K04"]
+    return finish(rep, t0)
+
+
 # ----------------------------------------------------------------------------- dispatch
 
 def run(prop, tier, seed, t0):
@@ -571,6 +837,10 @@ def run(prop, tier, seed, t0):
         return run_c15(tier, seed, t0)
     if prop == "C14":
         return run_c14(tier, seed, t0)
+    if prop == "C10":
+        return run_c10(tier, seed, t0)
+    if prop == "C11":
+        return run_c11(tier, seed, t0)
     print("property %s is not claimed by this framework (see MANIFEST.json not_applicable)" % prop, file=sys.stderr)
     return 2
 
@@ -582,6 +852,10 @@ def replay(prop, path):
         it = payload["item"]
         it["oracles"] = [prop]
         return run_core(prop, "quick", 0, t0, replay_item=it)
+    if payload.get("kind") == "conc":
+        return run_c11("quick", 0, t0, replay_item=payload["item"])
+    if payload.get("kind") == "fault":
+        return run_c10("quick", 0, t0, replay_item=payload["item"])
     if payload.get("kind") == "file":
         return run_c14("quick", 0, t0, replay_item=payload["item"])
     if payload.get("kind") == "ro":
